@@ -163,7 +163,11 @@ func RunDriver(propID, tier string, seed uint64, only *Violation) int {
 				cmd := exec.Command(bin, args...)
 				outf, _ := os.Create(filepath.Join(scratch, fmt.Sprintf("%s-%03d.out", leg.Name, b)))
 				cmd.Stdout, cmd.Stderr = outf, outf
-				cmd.Env = append(os.Environ(), leg.Env...)
+				// children are mostly sequential case loops: 16 of them with 16 Ps
+				// each only thrash the scheduler and the GC; legs that explore
+				// schedules set GOMAXPROCS themselves through Env/EnvFor
+				cmd.Env = append(os.Environ(), "GOMAXPROCS=4")
+				cmd.Env = append(cmd.Env, leg.Env...)
 				if leg.EnvFor != nil {
 					cmd.Env = append(cmd.Env, leg.EnvFor(b)...)
 				}
